@@ -18,6 +18,9 @@ head -c 96 /dev/zero > "$CORPUS/zeros"; head -c 96 /dev/zero | tr '\0' '\377' > 
 RUNS="${VERIF_FUZZ_RUNS:-400000}"
 [ "$SEED" = "0" ] && LSEED=1 || LSEED="$SEED"
 JOBS="${VERIF_FUZZ_JOBS:-8}"
+# a campaign also ends after MAXS seconds (the bmoc_ops target runs ~120 inputs/s per process on long
+# histories: 400 000 runs would take an hour); ending on time is a normal end, the executed count is reported
+MAXS="${VERIF_FUZZ_MAX_S:-1200}"
 BIN="$ROOT/harness/fuzz/target/x86_64-unknown-linux-gnu/release/$TARGET"
 [ -x "$BIN" ] || { echo "fuzz binary $BIN missing after the build" >&2; exit 2; }
 # J independent libFuzzer processes (seeds LSEED*1000+k) sharing one corpus directory (each reloads the
@@ -25,7 +28,7 @@ BIN="$ROOT/harness/fuzz/target/x86_64-unknown-linux-gnu/release/$TARGET"
 LOG="$ROOT/.logs/fuzz-run-$TARGET-$PROP.log"; : > "$LOG"
 pids=""
 for k in $(seq 1 "$JOBS"); do
-  ASAN_OPTIONS=detect_odr_violation=0 "$BIN" "$CORPUS" -runs="$RUNS" -seed="$(( LSEED * 1000 + k ))" -len_control=0 -max_len=400 -reload=1 -artifact_prefix="$ART/" -print_final_stats=1 >"$LOG.$k" 2>&1 &
+  ASAN_OPTIONS=detect_odr_violation=0 "$BIN" "$CORPUS" -runs="$RUNS" -max_total_time="$MAXS" -seed="$(( LSEED * 1000 + k ))" -len_control=0 -max_len=400 -reload=1 -artifact_prefix="$ART/" -print_final_stats=1 >"$LOG.$k" 2>&1 &
   pids="$pids $!"
 done
 rc=0
@@ -59,7 +62,7 @@ cat > "$PART" <<EOJ
 {"property_id":"$PROP","tier":"$TIER","seed":$SEED,"profile":"fuzz-$TARGET","evaluations":$execs,"distinct_nontrivial":$units,
  "distinct_nontrivial_is_lower_bound":false,"rule":"libFuzzer campaign on target $TARGET (bytes decoded into the structured case of the property, oracle inside the target, ASan + debug assertions); non-trivial = inputs kept in the corpus because they reached new coverage",
  "samples":$samples,"classes":{},"sections":[{"name":"libfuzzer:$TARGET","planned":$(( RUNS * JOBS )),"evaluations":$execs,"distinct_nontrivial":$units,"exhaustive":false,"wall_s":$(( $(date +%s) - t0 ))}],
- "exhaustive_subspaces":[],"known_findings_hit":{},"excluded_known":0,"metrics_max":{},"metrics_min":{},"violations":[],"notes":["$JOBS libFuzzer processes sharing a corpus, -seed=$LSEED*1000+k -runs=$RUNS each: approximately reproducible only; the saved input is the reproducible unit"],"assumptions":[],"wall_s":$(( $(date +%s) - t0 ))}
+ "exhaustive_subspaces":[],"known_findings_hit":{},"excluded_known":0,"metrics_max":{},"metrics_min":{},"violations":[],"notes":["$JOBS libFuzzer processes sharing a corpus, -seed=$LSEED*1000+k -runs=$RUNS -max_total_time=$MAXS each: approximately reproducible only; the saved input is the reproducible unit"],"assumptions":[],"wall_s":$(( $(date +%s) - t0 ))}
 EOJ
 [ $viol -eq 1 ] && exit 1
 exit 0
